@@ -590,7 +590,7 @@ func GenProgram(t *rapid.T, prof *Profile, doc Doc) *Program {
 			if s.Kind != "plugin" {
 				continue
 			}
-			switch rapid.IntRange(0, 6).Draw(t, "out_tag") {
+			switch rapid.IntRange(0, 7).Draw(t, "out_tag") {
 			case 0:
 				fields = append(fields, F("w_"+s.ID, Opt("wait-optional", StepRef(s.ID, "outputs", "success", "a"))))
 			case 1:
@@ -603,6 +603,12 @@ func GenProgram(t *rapid.T, prof *Profile, doc Doc) *Program {
 			case 5:
 				// waiting for an output the step may well not end in: absent exactly then
 				fields = append(fields, F("we_"+s.ID, Opt("wait-optional", StepRef(s.ID, "outputs", "error", "reason"))))
+			case 6:
+				// optional items directly in a list: an absent one is left out
+				fields = append(fields, F("wl_"+s.ID, &Expr{K: "list", Items: []*Expr{
+					Opt("wait-optional", StepRef(s.ID, "outputs", "success", "s")),
+					Opt("wait-optional", StepRef(s.ID, "outputs", "error", "reason")),
+				}}))
 			case 4:
 				fields = append(fields, F("nest_"+s.ID, &Expr{K: "list", Items: []*Expr{
 					Obj(F("item", OneOf("kind", F("ok", StepRef(s.ID, "outputs", "success")), F("err", StepRef(s.ID, "outputs", "error")), F("off", StepRef(s.ID, "disabled", "output")))),
